@@ -252,3 +252,96 @@ func init() {
 			}
 		}})
 }
+
+func init() {
+	register(&Unit{Name: "c14.model", Props: []string{"C14"},
+		// in: body length, chunk sizes ("-" = fixed length), step sizes, fragment size, corrupt chunk index (-1 none)
+		Check: func(t *T, in In) []Finding {
+			body := c14Body(in.N(0))
+			var chunks []int
+			if in.S(1) != "-" {
+				chunks = parseInts(in.S(1))
+				if chunks == nil {
+					chunks = []int{}
+				}
+			}
+			steps := parseInts(in.S(2))
+			for _, k := range steps {
+				if k <= 0 {
+					return nil
+				}
+			}
+			wire := c14Wire(body, chunks)
+			if chunks != nil && in.N(4) >= 0 && in.N(4) < len(chunks) {
+				wire = c14WireCorrupt(body, chunks, in.N(4))
+			}
+			frags := [][]byte{wire}
+			if in.N(3) > 0 {
+				frags = fragEvery(wire, in.N(3))
+			}
+			obs := runPipe(frags, pipeCfg{streaming: true, consume: steps, full: true})
+			if len(obs.handled) == 0 || (obs.err != nil && strings.HasPrefix(obs.err.Error(), "harness:")) {
+				return nil // decided by c14.stream
+			}
+			h := obs.handled[0]
+			lines := h[strings.Index(h, "body=")+5 : strings.LastIndex(h, " trailers=")]
+			after := "!"
+			if len(obs.handled) > 1 && strings.HasPrefix(obs.handled[1], "GET /probe [Host=h] ") {
+				after = fmt.Sprintf("%x", c14Probe[:24])
+			} else if len(obs.handled) > 1 {
+				after = "other:" + obs.handled[1]
+			}
+			impl := lines + " | " + after
+			// the message body as it sits on the connection after the header block
+			hdrEnd := bytes.Index(wire, []byte("\r\n\r\n")) + 4
+			var mod string
+			stepArg := []byte(in.S(2))
+			if chunks == nil {
+				pl := len(body)
+				if pl > 8192 {
+					pl = 8192
+				}
+				mod = t.M.Call("stream_script", []byte("fixed"), []byte(fmt.Sprint(len(body))), []byte(fmt.Sprint(pl)), wire[hdrEnd:], stepArg)
+			} else {
+				mod = t.M.Call("stream_script", []byte("chunked"), wire[hdrEnd:], stepArg)
+			}
+			if mod != impl {
+				return []Finding{{Kind: "corr", Unit: "c14.model", Class: "stream_script", Impl: truncate(impl, 400), Model: truncate(mod, 400)}}
+			}
+			return nil
+		},
+		Gen: func(t *T) {
+			for i := 0; i < t.Scale(1500, 30000); i++ {
+				n := []int{0, 1, 2, 7, 20, 100, 1000, 5000, 8191, 8192, 8193, 9000, 20000}[t.R.Intn(13)]
+				if t.R.Intn(3) == 0 {
+					n = t.R.Intn(300)
+				}
+				ch := "-"
+				bad := -1
+				if t.R.Intn(2) == 0 {
+					var cs []string
+					left := n
+					for left > 0 {
+						c := 1 + t.R.Intn(left)
+						if t.R.Intn(3) == 0 && left > 4 {
+							c = 1 + t.R.Intn(4)
+						}
+						cs = append(cs, fmt.Sprint(c))
+						left -= c
+					}
+					ch = strings.Join(cs, ",")
+					if len(cs) > 0 && t.R.Intn(8) == 0 {
+						bad = t.R.Intn(len(cs))
+					}
+				}
+				var steps []string
+				for j, k := 0, t.R.Intn(5); j < k; j++ {
+					steps = append(steps, fmt.Sprint(1+t.R.Intn(n+3)))
+				}
+				if t.R.Intn(3) == 0 {
+					steps = append(steps, fmt.Sprint(n+10))
+				}
+				t.Do(In{Nn(n), S(ch), S(strings.Join(steps, ",")), Nn([]int{0, 0, 1, 7, 100, 4096, 5000}[t.R.Intn(7)]), Nn(bad)}, true)
+			}
+		}})
+}
